@@ -759,11 +759,8 @@ func (g *Gen) genFamily(fam string) (Op, bool) {
 			var reps []int
 			if r.Intn(2) == 0 {
 				// (a zero count gives a tensor with a zero-length axis; iterating one never terminates in
-				// this library, so they are kept rare)
+				// this library and slicing one reaches memory outside any allocation: the workloads do not create them)
 				reps = []int{1 + r.Intn(3)}
-				if r.Intn(60) == 0 {
-					reps[0] = 0
-				}
 			} else {
 				reps = make([]int, t.Shape()[ax])
 				for i := range reps {
@@ -777,6 +774,20 @@ func (g *Gen) genFamily(fam string) (Op, bool) {
 			name := "Repeat"
 			if r.Intn(3) == 0 {
 				name = "PkgRepeat"
+			}
+			if r.Intn(4) == 0 {
+				total := 0
+				if len(reps) == 1 {
+					total = reps[0] * t.Shape()[ax]
+				} else {
+					for _, x := range reps {
+						total += x
+					}
+				}
+				elems := t.Shape().TotalSize() / t.Shape()[ax] * total
+				if rr := g.pickWritable(func(x *tensor.Dense) bool { return x.Dtype() == t.Dtype() && x.Shape().TotalSize() == elems }); rr >= 0 {
+					return Op{Name: "RepeatReuse", In: []int{a}, R: rr, N: ax, I: reps, Out: g.newSlot()}, true
+				}
 			}
 			return Op{Name: name, In: []int{a}, N: ax, I: reps, Out: g.newSlot()}, true
 		}
@@ -886,7 +897,11 @@ func (g *Gen) genFamily(fam string) (Op, bool) {
 				return op, true
 			}
 		case 1:
-			a := g.pick(and(isDt("float64", "float32", "int"), func(t *tensor.Dense) bool { return t.Dims() >= 2 }))
+			// (on a strided view native.Select* reads past the view - another process history, another result;
+			// that is a defect of the conversion (C04), not a corruption: plain tensors only)
+			a := g.pick(and(isDt("float64", "float32", "int"), func(t *tensor.Dense) bool {
+				return t.Dims() >= 2 && !t.IsView() && !t.IsMaterializable() && !t.RequiresIterator()
+			}))
 			if a >= 0 {
 				return Op{Name: "NativeSelect", In: []int{a}, N: r.Intn(w.get(a).Dims()), Out: -1}, true
 			}
